@@ -200,13 +200,14 @@ func ScaleTwistExtrude3D(sdf SDF2, height, twist float64, scale v2.Vec) SDF3 {
 	s.height = height / 2
 	s.extrude = ScaleTwistExtrude(height, twist, scale)
 	// work out the bounding box
-	bb := sdf.BoundingBox()
-	bb = bb.Extend(Box2{bb.Min.Mul(scale), bb.Max.Mul(scale)})
 	// the profile rotates about the z-axis: use the box vertex farthest from the origin
+	// the rotated profile is then scaled: a vertex can end up on the axis with the larger scale
+	bb := sdf.BoundingBox()
 	l := 0.0
 	for _, v := range bb.Vertices() {
 		l = math.Max(l, v.Length())
 	}
+	l *= math.Max(1, math.Max(scale.X, scale.Y))
 	s.bb = Box3{v3.Vec{-l, -l, -s.height}, v3.Vec{l, l, s.height}}
 	return &s
 }
